@@ -405,6 +405,40 @@ def check_channels(run, cx, cfg):
             g = [e for e in evs if rp(e) == target]
             ok = len(g) == 1 and g[0]['args'][1] == ('param', 2) and ps[0]['ret'] == g[0].get('result')
         run.check(ok, 'frame.array-channel', fn, cfg, 'array %s(idx) must be the bounds-checked slice %s(idx)' % (meth, target.rsplit('::', 1)[-1]), where=where(cx.body(fn)))
+    # channels() starts at index 0 over the frame itself (array + 14 mono); channels_ref / channels_mut iterate the whole frame;
+    # array from_fn is core::array::from_fn
+    nch = 0
+    for ty, imp in sorted(frame_impls(cx).items()):
+        items = {i['name']: i['path'] for i in imp['items']}
+        ps = returning(cx.paths(items['channels'], inline=False))
+        r = ps[0]['ret'] if len(ps) == 1 else ('x',)
+        ni_, fi_ = cx.field_index('dasp_frame::Channels', 'next_idx'), cx.field_index('dasp_frame::Channels', 'frame')
+        ok = r[0] == 'agg' and r[1][1] == 'dasp_frame::Channels' and r[2][ni_] == ('int', 0, 'usize') and r[2][fi_] == ('param', 1) and not call_events(ps[0])
+        nch += 1
+        run.check(ok, 'frame.channels-ctor', items['channels'], cfg, 'channels() must start at channel 0 of the frame itself (is %s)' % short(r), where=where(cx.body(items['channels'])))
+        for meth, itname in (('channels_ref', 'iter'), ('channels_mut', 'iter_mut')):
+            ps = returning(cx.paths(items[meth], inline=False))
+            ok = False
+            if len(ps) == 1:
+                p = ps[0]
+                evs = [e for k, e in call_events(p)]
+                r = p['ret']
+                it = [e for e in evs if rp(e) == 'core::slice::<impl [T]>::' + itname]
+                if len(it) == 1 and r[0] == 'agg' and r[2] == (it[0]['result'],):
+                    src = it[0]['args'][0]
+                    if ty == '[S; N]':
+                        ok = len(evs) == 1 and src in (('ref', (('P', ('param', 1)), ())), ('param', 1))
+                    else:
+                        fr = [e for e in evs if rp(e) in ('core::slice::raw::from_ref', 'core::slice::raw::from_mut')]
+                        ok = len(evs) == 2 and len(fr) == 1 and fr[0]['args'][0] in (('ref', (('P', ('param', 1)), ())), ('param', 1)) and src == ('ref', (('P', fr[0]['result']), ()))
+            nch += 1
+            run.check(ok, 'frame.channels-ctor', items[meth], cfg, '%s must iterate exactly the channels of the frame, in order' % meth, where=where(cx.body(items[meth])))
+    run.floor('frame.channels-ctor', 'channels / channels_ref / channels_mut bodies (%s)' % cfg, nch, 45)
+    fn = '<[S; N] as dasp_frame::Frame>::from_fn'
+    ps = returning(cx.paths(fn, inline=False))
+    ok = len(ps) == 1 and len(call_events(ps[0])) == 1 and rp(call_events(ps[0])[0][1]) == 'core::array::from_fn' and call_events(ps[0])[0][1]['args'] == [('param', 1)] \
+        and ps[0]['ret'] == ('ret', call_events(ps[0])[0][0])
+    run.check(ok, 'frame.array-from_fn', fn, cfg, 'array from_fn must be core::array::from_fn(f) (calls f for 0..N in order)', where=where(cx.body(fn)))
     # Channels iterator
     fn = '<dasp_frame::Channels<F> as core::iter::traits::iterator::Iterator>::next'
     body = cx.body(fn)
